@@ -17,6 +17,7 @@ func init() { logging.Logger = zap.NewNop() }
 const (
 	perKeyVersions = 200  // versions kept per key (shipped constant, used only to decide when a MISS is legitimate)
 	maxLinks       = 2000 // ancestor links kept
+	maxKeys        = 100 * 1024
 )
 
 type world struct {
@@ -352,7 +353,7 @@ func (w *world) noteMemo(key, h string, depth int, ok bool) {
 
 // evictionPossible: decided from the model only.
 func (w *world) evictionPossible(key string) bool {
-	return w.m.versionsAdded[key] > perKeyVersions || w.committedBlocks > maxLinks
+	return w.m.versionsAdded[key] > perKeyVersions || w.committedBlocks > maxLinks || len(w.m.versionsAdded) > maxKeys
 }
 
 func (w *world) check(ctx, key string, got statecache.Value, hit bool, exp entry, expOK bool, own bool) {
